@@ -26,6 +26,11 @@ def cases(ctx):
         pr = G.gp_pair(rng, R=rng.choice([6, 12]), den=rng.choice([1, 2, 5]), kinds=("S", "S", "C", "U"), need_cross=True)
         if pr:
             yield {"k": "ops", "a": pr[0], "b": pr[1], "num": ["frac", "int", "mixed"][i % 3]}
+    for i in range(ctx.n(20, 400)):
+        R = rng.choice([3 * 10 ** 4, 10 ** 5, 10 ** 6])
+        a = G.star_polygon(rng, n=rng.randint(3, 5), R=R)
+        b = G.star_polygon(rng, n=rng.randint(3, 5), R=R, center=(float(a[0][0]), float(a[0][1])))
+        yield {"k": "big", "a": a, "b": b}
     for i in range(ctx.n(20, 300)):
         vs = G.star_polygon(rng, R=10, den=rng.choice([1, 3, 16]))
         yield {"k": "xf", "vs": vs, "mv": (F(rng.randint(-99, 99), rng.choice([1, 7, 1000])), F(rng.randint(-99, 99), 3)),
@@ -129,6 +134,31 @@ def check(ctx, case):
                 for (_, _, u, v) in rows:
                     if u is not None and not (_wf(u) and _wf(v)):
                         fails.append(Fail(kind="O", what="crossing parameter is not an exact rational", impl=[repr(u), repr(v)]))
+        return fails
+    if k == "big":
+        ja, jb = G.verts_to_jordan(case["a"]), G.verts_to_jordan(case["b"])
+        A, B = I.mk_jordan(ja), I.mk_jordan(jb)
+        r = I.outcome(lambda: A.intersection(B))
+        if r[0] != "ok":
+            return [Fail(kind="O", what="intersection raised", impl=r)]
+        from .c14 import _exact_rows
+        truth = _exact_rows(ja, jb)
+        got = set()
+        for (a, b, u, v) in r[1]:
+            if u is None:
+                continue
+            if not (_wf(u) and _wf(v)):
+                fails.append(Fail(kind="O", what="crossing parameter is not a well-formed exact rational", impl=[repr(u), repr(v)]))
+            got.add((a, b, F(u), F(v)))
+        ctx.count("big:max-denominator>1e9" if any(x[2].denominator > 10 ** 9 for x in truth) else "big:small-denominators")
+        if got != truth:
+            fails.append(Fail(kind="O", what="crossing parameters are not the exact rational values", impl=sorted(got - truth)[:2], expected=sorted(truth - got)[:2]))
+        rm = ctx.model.intersection(ja, jb, True, True)
+        ctx.k_cases += 1
+        if rm[0] == "ok" and {(a, b, u, v) for (a, b, u, v) in rm[1] if u is not None} == got:
+            ctx.k_agreed += 1
+        else:
+            fails.append(Fail(kind="K", what="crossing parameters differ from the model"))
         return fails
     if k == "xf":
         vs, mv, sc = case["vs"], case["mv"], case["sc"]
